@@ -2,6 +2,6 @@
    list, prod, unit, sumbool become OCaml's; Z, positive, N, nat stay the
    extracted inductives.  No Extract Constant. *)
 From Coq Require Import ExtrOcamlBasic ZArith List.
-From V Require Import Valid.Run.
+From V Require Import Valid.Dispatch.
 Extraction Language OCaml.
-Extraction "vchk.ml" run_instance.
+Extraction "vchk.ml" run_any.
